@@ -12,6 +12,7 @@ pub mod run;
 pub mod strict;
 pub mod ts;
 pub mod fdef;
+pub mod dec;
 
 pub fn dispatch(case: &Value, dir: &Path) -> Value {
     match case.get("op").and_then(|x| x.as_str()) {
@@ -31,6 +32,7 @@ pub fn dispatch(case: &Value, dir: &Path) -> Value {
         Some("tzdata") => ts::op_tzdata(case, dir),
         Some("fdef") => fdef::op_fdef(case, dir),
         Some("b64") => fdef::op_b64(case),
+        Some("dec") => dec::op_dec(case),
         Some(op) => json!({"r": "BADCASE", "msg": format!("unknown op {op}")}),
         None => json!({"r": "BADCASE", "msg": "no op"}),
     }
